@@ -1152,11 +1152,6 @@ func (p *proposalShard) getProposal(clientID uint64,
 	return p.takeProposal(clientID, seriesID, key, now, true)
 }
 
-func (p *proposalShard) borrowProposal(clientID uint64,
-	seriesID uint64, key uint64, now uint64) *RequestState {
-	return p.takeProposal(clientID, seriesID, key, now, false)
-}
-
 func (p *proposalShard) takeProposal(clientID uint64,
 	seriesID uint64, key uint64, now uint64, remove bool) *RequestState {
 	p.mu.Lock()
@@ -1177,9 +1172,20 @@ func (p *proposalShard) takeProposal(clientID uint64,
 }
 
 func (p *proposalShard) committed(clientID uint64, seriesID uint64, key uint64) {
-	if ps := p.borrowProposal(clientID, seriesID, key, p.getTick()); ps != nil {
-		verifhook.Point(verifhook.ProposalCommittedWindow, clientID, key)
-		ps.committed()
+	verifhook.Point(verifhook.ProposalCommittedWindow, clientID, key)
+	now := p.getTick()
+	// the commit notification is delivered with the lock held, otherwise the
+	// request can expire, be released by its owner and get reused for another
+	// request in the middle of the notification
+	p.mu.Lock()
+	defer p.mu.Unlock()
+	if p.stopped {
+		return
+	}
+	if ps, ok := p.pending[key]; ok && ps.deadline >= now {
+		if ps.clientID == clientID && ps.seriesID == seriesID {
+			ps.committed()
+		}
 	}
 }
 
